@@ -685,3 +685,80 @@ merge_chains_loop = FunctionContract(
             ("merged.merge_molecule(molecule)", "molecule.merge_molecule(merged)")],
 )
 CONTRACTS.append(merge_chains_loop)
+
+
+# ------------------------------------------------------------------ Molecule.subgraph: the new molecule, its atoms and its bonds
+SGAttrs = TKey('SGAttrs')                                   # attribute dictionaries of atoms
+SGNode = TTuple(Key, SGAttrs)
+
+
+def setup_sgh(cx):
+    eng = cx.eng
+    nodes = cx.val('NODE_LIST', TSeq(Key))                   # the atoms asked for, in the order given
+    cx.spec_env.update(NODE_LIST=nodes, SGAttrs=SGAttrs)
+    attrs_of = cx.uf('attrs_of', [Key], SGAttrs)             # self.nodes[n]
+    copy_of = cx.uf('copy_of', [SGAttrs], SGAttrs)           # copy.copy(d): a new dictionary with the same items
+    ADDED = cx.heap('ADDED', cx.box('ADDED', TSeq(SGNode)))
+    EDGE_ARGS = cx.heap('EDGE_CALLS', cx.box('EDGE_CALLS', TSeq(TInt)))
+    sub = Obj('NewMolecule')
+    meta, ff, cit = Obj('meta'), Obj('force_field'), Obj('citations')
+    edges = Obj('edges_between(nodes, nodes, data=True)')
+
+    def copy_(e, x):
+        if isinstance(x, SV) and x.ty == SGAttrs:
+            return SV(SGAttrs, copy_of(x.e))
+        if isinstance(x, Obj):
+            return Obj('copy', of=x)
+        raise EngineError('copy.copy of %r' % (x,))
+
+    def add_nodes_from(e, xs):
+        from pyvc.builtins import list_extend
+        list_extend(e, ADDED, xs)
+
+    def edges_between(e, a, b, data=False):
+        ok = isinstance(a, (SV, Box)) and isinstance(b, (SV, Box)) and isinstance(type_of(a), TSet) and data is True
+        e.oblige(ok, 'bonds:between-the-atoms-of-the-part-with-their-attributes')
+        x = z3.Const('bx', Key.sort())
+        i = z3.Int('bi')
+        st = TSeq(Key)
+        # both arguments are the set of the atoms asked for
+        for s in (a, b):
+            se = to_z3(s, TSet(Key))
+            e.oblige(z3.ForAll([x], z3.Select(se, x) == z3.Exists([i], z3.And(0 <= i, i < st.len(nodes.e), st.at(nodes.e, i) == x))),
+                     'bonds:among-exactly-the-atoms-asked-for')
+        return edges
+
+    def add_edges_from(e, xs):
+        from pyvc.builtins import list_append
+        e.oblige(xs is edges, 'bonds:those-of-the-whole-molecule')
+        list_append(e, EDGE_ARGS, 1)
+    sub.attrs.update(add_nodes_from=Builtin(add_nodes_from, 'add_nodes_from'), add_edges_from=Builtin(add_edges_from, 'add_edges_from'))
+    self = Obj('Molecule', name=cx.val('NAME', TStr), meta=meta, _force_field=ff, nrexcl=cx.val('NREXCL', TOpt(TInt)), citations=cit,
+               nodes=Obj('NodeView', __getitem__=Builtin(lambda e, n: SV(SGAttrs, attrs_of(to_z3(n, Key))), 'self.nodes[]')),
+               edges_between=Builtin(edges_between, 'self.edges_between'))
+    self.attrs['__class__'] = Builtin(lambda e: sub, 'self.__class__')
+    cx.spec_env['copy'] = Obj('copy', copy=Builtin(copy_, 'copy.copy'))
+    cx.spec_env.update(SELF_META=meta, SELF_FF=ff, SELF_CIT=cit, SUBM=sub)
+    return dict(self=self, nodes=nodes)
+
+
+subgraph_head = FunctionContract(
+    F, 'Molecule.subgraph', 'C12', short='Molecule.subgraph[atoms and bonds]', setup=setup_sgh,
+    region=dict(start="subgraph = self.__class__()", end="for interaction_type, interactions in self.interactions.items():"),
+    requires=["len(old(ADDED)) == 0 and len(old(EDGE_CALLS)) == 0"],
+    ensures=[
+        # the part is a new molecule of the same class with the whole's name, force field, nrexcl and citations and a copy of its meta
+        "subgraph is SUBM and subgraph.name == self.name and subgraph._force_field is SELF_FF and subgraph.nrexcl == self.nrexcl and "
+        "subgraph.citations is SELF_CIT and subgraph.meta.of is SELF_META",
+        # it holds exactly the atoms asked for, in the order given, each with a copy of its attribute dictionary ...
+        "len(ADDED) == len(NODE_LIST)",
+        "forall(lambda j: implies(0 <= j and j < len(NODE_LIST), ADDED[j] == (NODE_LIST[j], copy_of(attrs_of(NODE_LIST[j])))))",
+        # ... and the bonds the whole has among these atoms (edges_between: contract Molecule.edges_between[pairs]), added once
+        "len(EDGE_CALLS) == 1",
+    ],
+    modifies=['ADDED', 'EDGE_CALLS'],
+    canary=[("node_copies = [(node, copy.copy(self.nodes[node])) for node in nodes]", "node_copies = [(node, self.nodes[node]) for node in nodes]"),
+            ("subgraph._force_field = self._force_field", "subgraph._force_field = None"),
+            ("subgraph.add_edges_from(self.edges_between(nodes, nodes, data=True))", "subgraph.add_edges_from(self.edges_between(nodes, nodes))")],
+)
+CONTRACTS.append(subgraph_head)
